@@ -4,8 +4,8 @@ import MirVerif.Model.CheckKnown
 
 Same pipeline as `newInsnCheck` / `finishFuncCheck`, but every position is judged by the documented
 classes of `Model/DocModes.lean` (never by `insn_descs`), the operand count by the documented
-signature, a `ret` with the wrong count is an error (not a crash), every argument of `jcall` is
-judged like an argument of `call`, and a call target given as a reference must be callable.
+signature, a `ret` with the wrong count is `vararg_func`, every argument of `jcall` is judged
+like an argument of `call`, and a call target given as a reference must be callable.
 Opcodes MIR.md does not offer (`label`, `unspec`, `use`, `phi`, `invalid-insn`) have no documented
 behaviour; for them the implementation model is used so that they never count as a disagreement.
 The correspondence check compares the real checker with this function on every generated case:
